@@ -148,6 +148,9 @@ def h_setattr(eng, st, v, name, val):
     return None
 
 
+NP_LISTS = {}
+
+
 def _prep(eng, st, v):
     """python lists handed to numpy become opaque list terms"""
     if isinstance(v, VObj) and v.kind in ("list", "pylist"):
@@ -156,9 +159,17 @@ def _prep(eng, st, v):
         if seq is not None and seq.known_len is not None and seq.known_len <= 8:
             return app("list", *[_prep(eng, st, seq.get(st, z3.IntVal(i))) for i in range(seq.known_len)])
         return VNp(z3.Const(fresh_name("np:pylist"), NP))
+    if isinstance(v, VObj) and v.kind == "tlist":
+        # a list of tuples (parallel columns) handed to an opaque operation: an opaque constant; which list it stands for is kept in
+        # the module-level table NP_LISTS (name of the constant -> (object, state)) for specifications that need the columns
+        c = z3.Const(fresh_name("np:tlist"), NP)
+        NP_LISTS[c.decl().name()] = (v, st)
+        return VNp(c)
     if isinstance(v, VObj) and v.kind == "dict":
         rec = st.objs[v.oid]
-        if rec.get("pure") and len(rec["pyitems"]) <= 8 and not any(isinstance(x, tuple) for _, x in rec["pyitems"]):
+        tracked = (not rec.get("pure") and not rec.get("lazy") and rec.get("pyitems") is not None and "pysig" in rec
+                   and rec["dom"].eq(rec["pysig"][0]) and rec["val"].eq(rec["pysig"][1]))
+        if (rec.get("pure") or tracked) and len(rec["pyitems"]) <= 8 and not any(isinstance(x, tuple) for _, x in rec["pyitems"]):
             flat = []
             for k, x in rec["pyitems"]:
                 flat += [VConc(k) if isinstance(k, str) else VInt(k), _prep(eng, st, x)]
